@@ -206,6 +206,15 @@ def step (st : St) (j : Json) : St × List String :=
       | Json.arr #[Json.str m, Json.arr fs] => (m, fs.toList.filterMap (fun (x : Json) => x.getStr?.toOption))
       | _ => ("", []))
     (st, [if caseVariantMember top (parseTree 64 (jObj j "tree")) then "variant" else "clean"])
+  | "regrev" =>
+    let v := jObj j "rev"
+    let E := envOf st j
+    let r : Rev := { subject := jStr v "subject", fragment := jStr v "fragment", hasContext := jBool v "hasContext", typeOK := jBool v "typeOK",
+                     issuer := jStr v "issuer", date := jInt v "date", hasProof := jBool v "hasProof", vm := jStr v "vm", proofDecodes := jBool v "proofDecodes" }
+    let keys := jStrs v "sigKeys"
+    let (line, store) := match registerRevocation E (fun k _ => keys.contains k) true [] r with
+      | .ok s => ("ok", s) | .err e => ("rejected:" ++ e, []) | .panic _ => ("panic", [])
+    (st, [line ++ " revoked=" ++ (match isRevoked (getRevocations (findIn store r.subject)) with | .yes => "true" | .no => "false" | .error => "false+error")])
   | "s2s-vp" =>
     match j.getObjVal? "doc" with
     | .ok .null => (st, ["unparseable"])
